@@ -1691,3 +1691,12 @@ func RBRUnlock(m *xsync.RBMutex, t *xsync.RToken, site string) {
 	m.RUnlock(t)
 	ReleasedR(m, site)
 }
+
+// Self returns the id and name (spawn site) of the running managed goroutine.
+func Self() (int, string) {
+	s, g := enter()
+	if s == nil || g == nil {
+		return -1, ""
+	}
+	return g.id, g.name
+}
